@@ -7,6 +7,12 @@ TB = ("Trusted: Coq 8.16.1 kernel (vm_compute, no native_compute; no axioms: eve
       "sync.Pool/bufio; the translator tools/gotrans; extraction (ExtrOcamlBasic only) + ocaml/zmodel.ml; the Go harness and its "
       "blob-decoding co-process; for vectors the pure-Go stand-in engine fakefaiss. ")
 CLAIMED = {
+ "C05": ("Coq: renumbering theorem (Renum.v) + declarative spec_merge; correspondence: merge chains with all bitmap classes vs extracted spec_merge (maps, size, Count, Fields, stored data, DocID, DocNumbers) and the extracted parser's reading of each merged file",
+         "C05_renumber proves the numbering loop for all inputs; extracted spec_merge decides every stored-data observation of the re-opened merge output over chains (depth <= 3) of built / opened / merged inputs with nil, empty, random and full deletion bitmaps, empty inputs and zero survivors.",
+         "copyStoredDocs / slow-path byte handling are covered by the correspondence only; snappy abstract.", "6 C05"),
+ "C06": ("Coq: single-hit codec theorem + translator ties (enc/dec 1-hit, under32Bits, getChunkSize) + declarative spec_merge; correspondence: merge chains incl. single-hit and byte-copied entries and 1024-boundary cardinalities vs extracted spec_merge, files decoded by the extracted parser",
+         "onehit_roundtrip and the codec lemmas hold for all values and are re-proved against the Go source each run; extracted spec_merge decides the complete dictionary/postings/doc-value surface of each merge output, including re-merged single-hit entries, byte-copy path and terms whose cardinality crosses a multiple of 1024 through deletions.",
+         "the merge algorithm (enumerator, copy vs re-encode) is tied by correspondence, not by a refinement proof.", "6 C06"),
  "C01": ("Coq: declarative spec_of_batch + verified codec round-trips (uvarint, freq/norm, locations, chunk tables, chunkedIntCoder) + translator ties (getChunkSize, encodeFreqHasLocs, numUvarintBytes); correspondence: extracted spec and extracted v16 parser vs the built segment on generated and boundary batches",
          "The built segment's complete dictionary/postings surface (public API) and the bytes it writes (decoded by the extracted parser) are compared with the extracted specification on structured random batches, all chunk-mode classes and exact 1023/1024/1025/2048-posting boundaries; codec lemmas and chunk-size arithmetic are proved for all inputs and re-proved against the Go source on every run.",
          "The end-to-end theorem parse(emit(build b)) = spec b over the builder's backing-array model is partial (see DESIGN.md 6 C01: proved pieces listed in coq/props/C01.v); vellum/roaring/snappy abstract.", "6 C01"),
